@@ -431,7 +431,12 @@ func cmdCheck(args []string) int {
 			content := map[string]interface{}{"obligation": "bounded:" + fmt.Sprint(si["function"]), "kind": "bounded", "result": "counterexample found on the real code",
 				"failing_input": si["failing_input"], "bound": si["bound"], "harness_source": si["harness_source"], "harness_pkg": si["harness_pkg"], "harness_file": si["harness_file"], "harness_run": si["harness_run"]}
 			path := writeReplayFile(prop, "bounded:"+fmt.Sprint(si["function"]), content)
-			violLines = append(violLines, fmt.Sprintf("VIOLATION property=%s replay=%s obligation=bounded:%s counterexample replayed on the real code", prop, path, si["function"]))
+			tail := "counterexample replayed on the real code"
+			if strings.HasPrefix(fmt.Sprint(si["failing_input"]), "the bounded harness did not complete") {
+				// the tree does not build with the harness, or the function's signature changed: undecided, not a counterexample
+				tail = "(bounded harness did not complete) no-failing-input-found"
+			}
+			violLines = append(violLines, fmt.Sprintf("VIOLATION property=%s replay=%s obligation=bounded:%s %s", prop, path, si["function"], tail))
 			delete(si, "harness_source")
 		} else {
 			delete(si, "harness_source")
